@@ -3,6 +3,8 @@ package checks
 import (
 	"fmt"
 	"math/big"
+	"os"
+	"strings"
 
 	"github.com/ethereum/go-ethereum/core/types/goattypes"
 	bitcointypes "github.com/goatnetwork/goat/x/bitcoin/types"
@@ -199,10 +201,12 @@ func (b *bridgeHist) mineMalformedV1() {
 	filler := world.P2WPKHScript(world.Derive(3, "fill", r.Intn(100))[:20])
 	layouts := [][]*wireTxOut{
 		{wireOut(50_000, sc[0])}, // data output missing
-		{wireOut(50_000, sc[0]), wireOut(700, filler), wireOut(0, sc[1])}, // data output third
-		{wireOut(0, sc[1]), wireOut(50_000, sc[0])},                       // data output first
-		{wireOut(50_000, sc[0]), wireOut(0, other[1])},                    // another magic
-		{wireOut(50_000, sc[0]), wireOut(0, sc[1][:len(sc[1])-1])},        // data one byte short
+		{wireOut(50_000, sc[0]), wireOut(700, filler), wireOut(0, sc[1])},              // data output third
+		{wireOut(0, sc[1]), wireOut(50_000, sc[0])},                                    // data output first
+		{wireOut(50_000, sc[0]), wireOut(0, other[1])},                                 // another magic
+		{wireOut(50_000, sc[0]), wireOut(0, sc[1][:len(sc[1])-1])},                     // data one byte short
+		{wireOut(700, filler), wireOut(0, sc[1]), wireOut(50_000, sc[0])},              // key-hash output after the data output, claimed as output 2
+		{wireOut(50_000, sc[0]), wireOut(0, append([]byte{0x6a, 0x4c}, sc[1][2:]...))}, // another push opcode in front of the same data
 	}
 	var txs []*wireMsgTx
 	txs = append(txs, b.bc.CoinbaseTx(b.bc.Tip+1))
@@ -217,7 +221,10 @@ func (b *bridgeHist) mineMalformedV1() {
 		if k == 2 {
 			vout = 1
 		}
-		d := &depTruth{Block: blk, Index: i, Raw: blk.Raw[i], Txid: blk.Txids[i], Vout: vout, Value: 50_000, Version: 1, Key: key, Evm: evm, Malformed: true}
+		if k == 5 {
+			vout = 2
+		}
+		d := &depTruth{Block: blk, Index: i, Raw: blk.Raw[i], Txid: blk.Txids[i], Vout: vout, Value: 50_000, Version: 1, Key: key, Evm: evm, Malformed: true, Layout: k}
 		b.malformed = append(b.malformed, d)
 	}
 }
@@ -326,7 +333,7 @@ func c03Gen(b *bridgeHist, blk int, muts []depMutator) {
 	for _, t := range b.malformed {
 		if t.Block.Height <= b.votedTip && t.Attempts < 2 && r.Intn(3) == 0 {
 			t.Attempts++
-			b.ops = append(b.ops, b.depositsOp([]*bitcointypes.Deposit{b.genuineDeposit(t)}, hdrsFor([]*depTruth{t}), "malformed-v1-layout", false))
+			b.ops = append(b.ops, b.depositsOp([]*bitcointypes.Deposit{b.genuineDeposit(t)}, hdrsFor([]*depTruth{t}), fmt.Sprintf("malformed-v1-layout-%d", t.Layout), false))
 		}
 	}
 	// coinbase deposits: under position 0 and under aliased positions, before and after maturity
@@ -412,6 +419,13 @@ func c03History(c *vc.Ctx, idx int) {
 	}
 	if nc == 0 {
 		c.Inconclusive("no genuine deposit was ever credited (controls do not work)")
+	}
+	if os.Getenv("VERIF_DEBUG") != "" {
+		for _, l := range lh.opsLog {
+			if strings.Contains(l, "malformed") || strings.Contains(l, "failed") {
+				fmt.Fprintln(os.Stderr, "DEBUG", l)
+			}
+		}
 	}
 	c.Sample(map[string]any{"bitcoin_blocks": b.bc.Tip, "voted_tip": b.votedTip, "deposit_outputs_mined": len(b.deps), "credited": nc, "registered_keys": len(b.keys), "last_ops": lastN(lh.opsLog, 4)})
 }
